@@ -51,7 +51,7 @@ class Prop:
             "result that needed >= 2 terms; distinct = distinct sha256 of the event log")
     probes = ["k2", "k3", "k4", "herm_adjpair", "herm_sandwich", "herm_nonadjoint", "domain_float", "domain_tracer",
               "result_one", "result_zero", "result_value", "multi_term_result", "discipline_checked", "highest_order_checked", "highest_order_truth_checked",
-              "op_array", "op_view", "repeat_cached", "op_mul", "known_finding_signature_hits"]
+              "op_array", "op_view", "repeat_cached", "op_mul", "op_rmul", "known0_pattern", "known_finding_signature_hits"]
     components_real = ["pymablock.series.cauchy_dot_product, product_by_order, BlockSeries"]
     components_stub = ["factor series eval callbacks (simulator-owned tables, call log)", "element multiplication wrapper (logging)",
                        "tracer element type (exact free *-algebra)"]
@@ -79,11 +79,23 @@ class Prop:
         elif herm == "nonadjoint":
             dims = [dims[0]] * 3
         domain = r.choice(["tracer", "tracer", "float"])
-        opname = "mul" if (domain == "tracer" and r.random() < 0.2) else "matmul"
+        opname = "matmul"
+        if domain == "tracer":
+            opname = r.choice(["matmul"] * 3 + ["mul", "rmul"])  # rmul: the opposite algebra, op(a, b) = b·a
         factors = []
         for k in range(K):
-            factors.append({"pz": r.choice([0.0, 0.2, 0.5, 0.7]), "start_zero": r.random() < 0.4,
-                            "ones": r.random() < 0.3, "fseed": r.randrange(1 << 30)})
+            known0 = []
+            x = r.random()
+            if x < 0.15:  # a whole block row declared absent at zeroth order
+                row = r.randrange(dims[k])
+                known0 = [[row, j] for j in range(dims[k + 1])]
+            elif x < 0.3:  # a whole block column
+                col = r.randrange(dims[k + 1])
+                known0 = [[i, col] for i in range(dims[k])]
+            elif x < 0.4:
+                known0 = [[r.randrange(dims[k]), r.randrange(dims[k + 1])] for _ in range(r.randint(1, 3))]
+            factors.append({"pz": r.choice([0.0, 0.2, 0.5, 0.7]), "start_zero": r.random() < 0.3,
+                            "ones": r.random() < 0.3, "fseed": r.randrange(1 << 30), "known0": known0})
         cap = {1: 4, 2: 3, 3: 2}[ninf]
         case = {"K": K, "ninf": ninf, "dims": dims, "herm": herm, "domain": domain, "op": opname, "factors": factors,
                 "sizes": [r.choice([1, 2]) for _ in range(3)], "cap": cap}
@@ -162,7 +174,7 @@ class Prop:
                         idx = (i, j, *n)
                         absent = rg.random() < spec["pz"]
                         rows, cols = (bsize(i), bsize(j))
-                        if sum(n) == 0 and spec["start_zero"]:
+                        if sum(n) == 0 and (spec["start_zero"] or [i, j] in spec.get("known0", [])):
                             tab[idx] = zero
                         elif sum(n) == 0 and spec["ones"] and dims[k] == dims[k + 1]:
                             tab[idx] = one if i == j else zero
@@ -237,9 +249,21 @@ class Prop:
             data = None
             if spec["start_zero"]:
                 data = {(i, j, *(0,) * ninf): zero for i in range(dims[k]) for j in range(dims[k + 1])}
+            elif spec.get("known0"):
+                known = [(i, j) for i, j in spec["known0"] if i < dims[k] and j < dims[k + 1]]
+                if herm == "adjpair" and k == 1 or herm == "sandwich" and k == 2:
+                    known = [(j, i) for i, j in spec["known0"] if j < dims[k] and i < dims[k + 1]]
+                elif herm == "sandwich" and k == 1:
+                    known = [kk for kk in known if kk[0] <= kk[1]] + [(j, i) for i, j in known if i <= j]
+                data = {(i, j, *(0,) * ninf): zero for i, j in known if tables[k].get((i, j, *(0,) * ninf), zero) is zero}
+                bump("known0_pattern")
             factors.append(BlockSeries(eval=make_eval(k), data=data, shape=(dims[k], dims[k + 1]), n_infinite=ninf,
                                        name=NAMES[k]))
-        base = _op.mul if case["op"] == "mul" else _op.matmul
+        if case["op"] == "rmul":
+            base = lambda a, b: b @ a  # noqa: E731
+            bump("op_rmul")
+        else:
+            base = _op.mul if case["op"] == "mul" else _op.matmul
 
         def oper(a, b):
             mlog[0] += 1
